@@ -15,34 +15,45 @@ from .common import Ctx, Driver
 MANIFEST = dict(
     text=("Lean theorems, for all trees (own inductive tree type: tags with name, prefix, ordered attributes with str/list/None "
           "values, can_be_empty_element, hidden; strings of the 13 classes), all formatters (substitution function, void prefix, "
-          "cdata-containing tags, empty-attributes-are-booleans as parameters) and all class tables: decode() — the explicit tag stack "
-          "of _event_stream over the pre-order element chain with parent links, _format_tag, output_ready, piece join — equals the "
-          "structural recursion renderSpec (decode_eq_render, decode_contents_eq; net effect of a balanced block on the stack "
-          "machine); an element with children is never rendered in the empty-element form, whatever can_be_empty_element and the "
-          "void prefix are (never_empty_with_children, childless_forms); a string whose parent is a cdata-containing tag is "
-          "emitted unchanged under every substitution function (cdata_verbatim), and on the generated registries every HTML "
-          "formatter has exactly script/style as such tags (registry_cdata_tags, cdata_verbatim_live); 'minimal'/'html' write "
-          "<x/> (void_prefix_slash). Round trip at the event level: for every Representable forest (explicit decidable predicate), "
-          "every builder configuration and formatter, feeding the events of the rendered text to the mirror of bs4's parser side "
+          "cdata-containing tags, empty-attributes-are-booleans as parameters) and all class tables. RENDERING: _event_stream — the "
+          "explicit tag stack over the pre-order element chain with parent links — yields exactly the structural event list "
+          "(event_stream_eq_spec; net effect of a balanced block), hence decode()/decode_contents() = the structural recursion "
+          "(decode_eq_render, decode_contents_eq); for every element of every tree an EMPTY event / void form only for a childless "
+          "element that can be empty, START+END without void slash for any element with children (events_classified, "
+          "never_empty_everywhere, never_empty_with_children, childless_forms); every string child of a cdata-containing element is "
+          "emitted verbatim under every substitution function (cdata_verbatim, cdata_verbatim_children) and every HTML registry "
+          "formatter has exactly script/style as such (registry_cdata_tags, cdata_verbatim_live); formatter resolution mirrored "
+          "(formatter_for_name, _is_xml: isXml_eq_spec, registry_lookup_live over both whole registries, formatter_for_callable, "
+          "decode_keyerror, decodeTop_eq) and the XML flavour substitutes everywhere (xml_substitutes_everywhere); the generated class "
+          "table is the markup the re-parse model presupposes, all 13 classes (class_table_live). ROUND TRIP at the event level: for "
+          "every Representable forest (explicit decidable predicate), every builder configuration and formatter, bs4's parser side "
           "(handle_starttag/startendtag/endtag with already_closed_empty_element, endData whitespace rule, string containers, "
-          "_popToTag, cdata-list attributes) builds exactly normaliseL — adjacent text merged, whitespace-only runs normalised, "
-          "newline text after a doctype, attributes sorted/None->''/multi-valued split (reparse_roundtrip); the second re-parse "
-          "builds normalise(normalise t), so the second round trip is a fixpoint iff the executable normal form is idempotent at t "
-          "(second_roundtrip, second_roundtrip_fixpoint_iff; evaluated per case); the whitespace rule is idempotent (wsRule_idem) and "
-          "chunking of character data is irrelevant (txt_chunking); unrestricted idempotence of the normal form is refuted by a "
-          "decided witness (doctype_text_not_fixpoint = known finding). "
-          "Tie: differential runs on parsed and API-built/edited trees of both flavours under all registry formatters, every element "
-          "as start; the real html.parser event stream of the real rendered text against emitR; the real re-parse against "
-          "build/normaliseL; independent Python oracle of the round trip, the second round trip, the empty-element rule and "
-          "script/style verbatim; exhaustive small trees of identical tags for the `!=` stack comparison."),
+          "_popToTag, cdata-list attributes) fed the events of the rendered text builds exactly normaliseL (reparse_roundtrip); with "
+          "the written text read back through C09's reader models the same holds unconditionally for 'minimal' and 'html' in both "
+          "flavours (minimal_reader_laws, html_reader_laws, reparse_roundtrip_rd, reparse_roundtrip_registry; this model's "
+          "substitute_xml/quoted_attribute_value are C09's: subst_quote_are_c09). NORMAL FORM: same elements, attributes (for dict "
+          "attributes: sorted keys, written text, multi-valued split), visible text, special strings (same_elements, "
+          "same_attributes, same_text, same_specials, wsRule_only_whitespace, wsRule_idem, txt_chunking). SECOND ROUND TRIP: the "
+          "normal form is idempotent for every forest that is DoctypeStable (explicit decidable predicate), every formatter and "
+          "every configuration satisfying ConfigOK — attributes for all attribute lists (normalise_idem, normAttrs_idem, "
+          "live_config_ok, second_roundtrip, second_roundtrip_fixpoint(_iff)); without DoctypeStable it is false by a decided "
+          "witness (doctype_text_not_fixpoint = known finding). Tie: differential runs on parsed and API-built/edited trees of both "
+          "flavours (edits interleaved with renderings) under all registry formatters with the substitution functions computed by "
+          "the model, every element as start; decode(formatter=arg) for registry keys incl. unknown ones, callables and Formatter "
+          "objects under known_xml chains; the real html.parser event stream of the real rendered text against emitR; the real "
+          "re-parse against build/normaliseL and the second against normalise∘normalise; independent Python oracle of the round "
+          "trip, the second round trip, the empty-element rule, script/style verbatim and detached rendering; exhaustive small "
+          "trees of identical tags for the `!=` stack comparison; the class/registry tables exhaustively."),
     design="7/C05",
-    note=("CPython's tokenizer is not modelled: its events for each rendered text are recorded and compared with emitR; that "
-          "read(subst s)=s for text and attribute values is C09's theorem and is re-observed here per case. Entity substitution "
-          "functions other than substitute_xml enter the model as their graph on the strings of the case (computed by the real "
-          "code). normalise_idem / second_roundtrip_fixpoint are stated but not proved in Lean (the second round trip is checked "
-          "by the oracle and by the executable model per case); it is false in general because of the doctype newline (known "
-          "finding). XML flavour is built by hand (no lxml) and re-parsed with html.parser. Charset substitution in <meta> is C08's."),
-    technique="Lean 4 refinement proof (stack machine = structural recursion; balanced-block net effect for the re-parse) + differential correspondence + recorded tokenizer + direct Python oracle",
+    note=("CPython's tokenizer is not modelled: its events for each rendered text are recorded and compared with emitR (tag/"
+          "comment/declaration/PI tokenisation, CDATA-content mode); character data and attribute values are read back through "
+          "C09's reader models in the Lean theorems. Representable is conservative (see Props docstring) and is not shown to be "
+          "preserved by the normal form: second_roundtrip keeps 'the normal form is representable' as a decidable hypothesis, "
+          "evaluated per case. DoctypeStable is sufficient for idempotence; the doctype newline makes the unrestricted statement "
+          "false (known finding). XML flavour is built by hand (no lxml) and re-parsed with html.parser; the XML declaration "
+          "BeautifulSoup.decode prepends and charset substitution in <meta> are C08's; pretty-printing is C14's. html5 is rendered "
+          "and compared but is outside the round-trip quantifier (its void form <br> is not modelled in emitR)."),
+    technique="Lean 4 refinement proofs (stack machine = structural recursion; balanced-block net effect for the re-parse; lockstep re-absorption for idempotence) + differential correspondence + recorded tokenizer + direct Python oracle",
 )
 
 CLASSES = ["NavigableString", "PreformattedString", "CData", "ProcessingInstruction", "XMLProcessingInstruction",
